@@ -48,11 +48,14 @@ def run_case(cs, layout=None):
                 src, dst = cs['f']['columns'], P.labels_of(r.columns)
             elif op == 'f_sort_values':
                 by = [P.dec(x) for x in cs['by']]
-                r = f.sort_values(by if len(by) > 1 else by[0], ascending=asc)
+                # a key function that leaves the keys as they are, handing them back as the container it got or as a plain array
+                kf = {'container': (lambda x: x), 'values': (lambda x: x.values)}.get(cs.get('keyfn'))
+                r = f.sort_values(by if len(by) > 1 else by[0], ascending=asc, **({'key': kf} if kf else {}))
                 src, dst = cs['f']['index'], P.labels_of(r.index)
             else:
                 by = [P.dec(x) for x in cs['by']]
-                r = f.sort_values(by if len(by) > 1 else by[0], ascending=asc, axis=0)
+                kf = {'container': (lambda x: x), 'values': (lambda x: x.values)}.get(cs.get('keyfn'))
+                r = f.sort_values(by if len(by) > 1 else by[0], ascending=asc, axis=0, **({'key': kf} if kf else {}))
                 src, dst = cs['f']['columns'], P.labels_of(r.columns)
         pos = {json.dumps(l): i for i, l in enumerate(src)}
         order = [pos.get(json.dumps(l), -1) for l in dst]
@@ -146,13 +149,20 @@ def gen_case(rng, big=True):
         return {'op': 'f_sort_columns', 'f': f, 'ascending': asc}, C.rand_layout(rng, f)
     if r < 0.9 or n == 0:
         by = rng.sample(cl, nk)
-        return {'op': 'f_sort_values', 'f': f, 'by': by, 'ascending': asc}, C.rand_layout(rng, f)
+        cs = {'op': 'f_sort_values', 'f': f, 'by': by, 'ascending': asc}
+        bykinds = {cols[[str(c) for c in cl].index(str(b))]['dt'][0] for b in by}
+        if len(bykinds) == 1 and bykinds <= {'i', 'f'} and rng.random() < 0.5:
+            cs['keyfn'] = rng.choice(['container', 'values'])
+        return cs, C.rand_layout(rng, f)
     # axis 0: order the columns by the values of one or two rows (homogeneous int frame)
     m = rng.choice([3, 20, 40])
     cols = [{'dt': ['i', 64], 'vals': [['i', rng.randrange(3)] for _ in range(2)]} for _ in range(m)]
     f = {'index': [['s', 'r0'], ['s', 'r1']], 'columns': [['i', j] for j in range(m)], 'cols': cols, 'name': ['none']}
     by = rng.choice([[['s', 'r0']], [['s', 'r1'], ['s', 'r0']]])
-    return {'op': 'f_sort_values_axis0', 'f': f, 'by': by, 'ascending': asc}, C.rand_layout(rng, f)
+    cs = {'op': 'f_sort_values_axis0', 'f': f, 'by': by, 'ascending': asc}
+    if rng.random() < 0.5:
+        cs['keyfn'] = rng.choice(['container', 'values'])
+    return cs, C.rand_layout(rng, f)
 
 
 def main(ctx):
